@@ -4,7 +4,7 @@ use std::time::Duration;
 
 use serde_json::json;
 use vlib::fam::FileSpec;
-use vlib::fmt::{decode_file, Layout, RawBlock};
+use vlib::fmt::{decode_structure, Layout, RawBlock};
 use vlib::report::{par_for, Acc, Deadline, Report, Tier, Violation};
 
 use crate::common::write_file;
@@ -75,8 +75,9 @@ pub fn size_rule(layout: &Layout, b_eff: usize) -> Result<(u64, u64), String> {
 
 pub fn check_spec(spec: &FileSpec) -> Result<(u64, u64), (String, String)> {
     let entries = spec.entries.build();
-    let bytes = write_file(&spec.cfg, &entries).map_err(|e| ("write".to_string(), e))?;
-    let layout = decode_file(&bytes, None).map_err(|e| ("decode".to_string(), e))?;
+    let bytes = write_file(&spec.cfg, &entries).map_err(|e| ("prerequisite".to_string(), e))?;
+    // only the block structure is needed; conformance of the content is C09's business
+    let layout = decode_structure(&bytes).map_err(|e| ("prerequisite".to_string(), e))?;
     size_rule(&layout, spec.cfg.effective_block_size()).map_err(|e| ("size".to_string(), e))
 }
 
@@ -98,6 +99,7 @@ fn check_one(spec: &FileSpec, acc: &mut Acc) {
                 acc.sample(|| json!({"file": spec, "blocks_checked": checked, "blocks_cut_at_size": full}));
             }
         }
+        Err((kind, _)) if kind == "prerequisite" => acc.count("prerequisite_failed_file_not_decodable_(C01/C09)", 1),
         Err((kind, msg)) => {
             acc.hist(&format!("violation_{kind}"));
             acc.violation(Violation {
@@ -131,7 +133,7 @@ pub fn check_chunks(c: &ChunkCase) -> Result<(u64, u64, usize), String> {
     let b_eff = std::cmp::max(1024, c.cfg.block_size.unwrap_or(8192));
     let (mut checked, mut full) = (0, 0);
     for (j, f) in files.iter().enumerate() {
-        let layout = decode_file(f, None).map_err(|e| format!("chunk #{j} of {}: {e}", files.len()))?;
+        let layout = decode_structure(f).map_err(|e| format!("chunk #{j} of {}: {e}", files.len()))?;
         let (c1, f1) = size_rule(&layout, b_eff).map_err(|e| format!("chunk #{j} of {} (configured block_size {:?}): {e}", files.len(), c.cfg.block_size))?;
         checked += c1;
         full += f1;
